@@ -840,3 +840,11 @@ V('c19-staged-arg-dropped', 'C19', 'C19.R11',
   (OPSF, "                method=method_name,\n                context=context,\n                MaxObjectCount=MaxObjectCount)", "                method=method_name,\n                context=context)", None, 1), 'staged-args')
 V('c19-finally-drift', 'C19', 'C19.R10',
   (OPSF, "                self.operation_recorder_stage_result(result_tuple, exc)", "                self.operation_recorder_stage_result(result_tuple, None)", None, 2), 'sibling-drift')
+
+# ---- round e ---------------------------------------------------------------------
+V('c02-unknown-encoding', 'C02', 'C02.R1',
+  ('pywbem/_tupletree.py', "    except LookupError as exc:\n", "    except MemoryError as exc:\n"), 'LookupError')
+V('c02-embedded-nonstring', 'C02', 'C02.R1',
+  (TPF, "        if not isinstance(val, str):\n            # The element has a non-string CIM type\n", "        if False:\n            # The element has a non-string CIM type\n"), 'TypeError')
+V('c02-exponential-regex', 'C02', 'C02.R9',
+  (OBJ, "_KB_DOUBLE_QUOTED = r'\"(?:[^\"\\\\]|\\\\.)*\"'", "_KB_DOUBLE_QUOTED = r'\"(?:[^\"\\\\]+|\\\\.)*\"'"), 'exponential-regex')
